@@ -155,6 +155,13 @@ static void rmtree(const char *p) {
 }
 
 /* ---------- callback ---------- */
+static int samepath(const char *a, const char *b) {   /* equal up to repeated slashes */
+  while (*a && *b) {
+    if (*a != *b) return 0;
+    if (*a == '/') { while (*a == '/') a++; while (*b == '/') b++; } else { a++; b++; }
+  }
+  return *a == *b;
+}
 static bool the_callback(const char *filename, const void *data) {
   struct ctx *c = (struct ctx *)data;   /* we pass the ctx itself; data_ok = cookie intact */
   /* data pointer identity is checked against the thread's ctx by the caller through the cookie */
@@ -163,9 +170,9 @@ static bool the_callback(const char *filename, const void *data) {
   c->cb_calls++;
   bool verdict = true;
   if (c->cb_calls <= 64 && (c->cb_reject_mask >> (c->cb_calls - 1) & 1)) verdict = false;
-  if (c->cb_reject_path && strcmp(c->cb_reject_path, filename) == 0) verdict = false;
+  if (c->cb_reject_path && samepath(c->cb_reject_path, filename)) verdict = false;
   for (int i = 0; i < c->cb_nlate; i++)
-    if (strcmp(c->cb_late_path[i], filename) == 0)
+    if (samepath(c->cb_late_path[i], filename))
       wfile(filename, c->cb_late_data[i], c->cb_late_len[i]);
   if (c->cb_nlog == c->cb_caplog) {
     c->cb_caplog = c->cb_caplog ? 2 * c->cb_caplog : 16;
